@@ -96,7 +96,7 @@ Definition model_obs (now : Z) (c : cfg) (u : upolicy) (r : request) (a : answer
      o_served := served rs;
      o_status := match rs_out rs with Forward _ => 200 | SignIn => if r_xhr r then 401 else 302 | Status n => n end;
      o_signin := match rs_out rs with SignIn => negb (r_xhr r) | _ => false end;
-     o_cookie := rs_cookie rs; o_calls := rs_calls rs |}.
+     o_cookie := rs_cookie rs; o_calls := rs_calls rs; o_issued_at := None |}.
 
 Lemma proxy_ok_serves now c u r a :
   ao_err (authenticate lower now c u (r_host r) (r_cookie r) a) = None ->
